@@ -164,7 +164,7 @@ def _stratify(pool):
 
 
 def uniform_cases(ctx):
-    n = 24 if ctx.tier == "quick" else (144 if ctx.lane == "f32" else 288)
+    n = 16 if ctx.tier == "quick" else (144 if ctx.lane == "f32" else 288)
     return _stratify(collect(uniform_strategy(ctx), n, ctx.seed, salt=f"C13u/{ctx.lane}/{ctx.tier}"))
 
 
